@@ -27,5 +27,7 @@ for d in sorted(glob.glob(root+'/C??-?')):
       'files':{'patch':'patch.diff','demonstration':demo,'demonstration_goes_in_package_dir':pkg},
       'confirmed_here':{'how':f'tools/confirm.sh {sid} {pkg}: scratch worktree of /repo HEAD; (1) demonstration passes on the unchanged tree, (2) go test -vet=off -count=1 ./... passes with the patch applied, (3) the demonstration fails with the patch applied','result':'all three as required'},
       'check_run':{'how':f'tools/trymutant.sh {sid} {prop}: git -C /repo apply patch.diff; ./check {prop} quick; git -C /repo checkout -- .','detected':bool(det),'violations':[re.sub(r' replay=\S+','',l) for l in det][:6]}}
+    if os.path.exists(d+'/note.txt'):
+        meta['note']=open(d+'/note.txt').read().strip()
     json.dump(meta,open(d+'/meta.json','w'),indent=1)
     print(sid, 'detected' if det else 'NOT-RUN/MISSED', '|', title[:70])
